@@ -64,12 +64,17 @@ package mitm
 //@ ghost var prevAddD time.Duration
 //@ ghost var lastAddRes time.Time
 //@ ghost var prevAddRes time.Time
+//@ ghost var lastNow time.Time
+//@ extern func time.Now
+//@   modifies lastNow
+//@   ensures lastNow == result
 //@ extern func (time.Time).Add
 //@   modifies lastAddD, prevAddD, lastAddRes, prevAddRes
 //@   ensures prevAddD == old(lastAddD) && prevAddRes == old(lastAddRes) && lastAddD == d && lastAddRes == result
 //@ func (*Config).cert
 //@   serves C06
-//@   modifies lastAddD, prevAddD, lastAddRes, prevAddRes
+//@   modifies lastAddD, prevAddD, lastAddRes, prevAddRes, lastNow
+//@   at call all of Add before assert[the-validity-window-is-counted-from-the-current-time-not-a-rounded-one] self == lastNow
 //@   at call 0 of CreateCertificate before assert[valid-from-now-minus-validity-to-now-plus-validity] tmpl.NotBefore == prevAddRes && (c.validity > -9223372036854775808 ==> prevAddD == 0 - c.validity) && tmpl.NotAfter == lastAddRes && lastAddD == c.validity
 //@   safe index
 //@   requires certsOK(c)
